@@ -44,8 +44,11 @@ pub enum Ty {
     /// columns, rows, scalar (f32 / f64)
     Mat(u32, u32, Sc),
     Atomic(Sc),
+    /// fixed array; the element may itself be an array (`array<array<S, 2>, 3>` = Array(Array(S, 2), 3)).
+    /// WGSL: align = align(E), stride = roundUp(align(E), size(E)), size = N * stride — see `layout`.
     Array(Box<Ty>, u32),
-    /// runtime-sized array (only as last member of a storage struct)
+    /// runtime-sized array (last member of a storage struct, or the store type of a storage variable);
+    /// the element may be a fixed array (`array<array<S, 4>>`)
     Runtime(Box<Ty>),
     Struct(usize),
 }
